@@ -31,6 +31,7 @@ from lsst.daf.relation import (
 from lsst.daf.relation.iteration import RowSequence
 
 from . import model as M
+from .monitors import MON
 from .exprs import expr_cols, pred_cols
 from .interp import InterpError, interp
 from .world import SimIOError, SimMatRows, SimRows, children, needs_processing, walk, walk_live
@@ -337,20 +338,45 @@ class ExtraOps:
 
                 rows, _ = self.evaluate(Entry(r, t.mv, op, []))
                 return len(rows) > 0
+        raised = []
+        if executor is not None and op.get("fail_at") is not None:
+            # the second party fails: the executor raises on its k-th call; Diagnostics must let that reach the caller
+            # (who retries), not turn it into a verdict
+            inner, calls = executor, [0]
+
+            def executor(r):  # noqa: F811
+                calls[0] += 1
+                if calls[0] == op["fail_at"] + 1:
+                    raised.append(calls[0])
+                    raise SimIOError("executor", calls[0])
+                return inner(r)
         try:
             d = Diagnostics.run(t.rel, executor)
         except Exception as e:  # noqa
             from .execu import is_injected
 
-            if w.fault.fired and is_injected(e, w.fault.fired):
+            if raised and isinstance(e, SimIOError):
+                self.stats["executor_fault_surfaced"] += 1
+                try:
+                    d = Diagnostics.run(t.rel, executor)        # the retry (the executor fails only once)
+                except Exception as e2:  # noqa
+                    self.violate("diag_exception", {"mode": mode, "phase": "retry after executor failure"}, entry=t, exc=e2)
+                    return
+            elif w.fault.fired and is_injected(e, w.fault.fired):
                 self.stats["fault_surfaced"] += 1
                 return
-            if mode == "real":
+            elif mode == "real":
                 # the executor (process + run) may hit an unrelated execution defect
                 self.on_exec_exception(t, e)
                 return
-            self.violate("diag_exception", {"mode": mode}, entry=t, exc=e)
-            return
+            else:
+                self.violate("diag_exception", {"mode": mode}, entry=t, exc=e)
+                return
+        else:
+            if raised:
+                self.violate("diag_inexact", {"mode": mode, "what": "an exception raised by the executor was swallowed",
+                                              "verdict_doomed": d.is_doomed}, entry=t)
+                return
         self.stats["diag:" + mode] += 1
         empty = len(truth) == 0
         if d.is_doomed and not empty:
@@ -838,6 +864,106 @@ class ExtraOps:
         self.stats["twins"] += 1
         self.logev(self.w.op_index, "twin", str(again))
         self.check_new(ent, op, [t])
+
+    def op_ephemeral(self, op):
+        """Short-lived relations: one to three unary calls on top of a pool entry, built from fresh expression objects
+        inside a local scope, evaluated, compared with the model and *dropped* (nothing of them is kept, and the
+        garbage collector runs), several times in a row.  Whatever the library remembers between calls must not be
+        keyed on the identity of objects that no longer exist."""
+        from . import execu
+        from .execu import Entry
+
+        t = self.ref(op["t"])
+        if t is None or t.taint or needs_processing(t.rel):
+            return
+        from .exprs import pred_trivial
+
+        def one(subs):
+            rel, mv = t.rel, t.mv
+
+            class _E:
+                pass
+
+            for sub in subs:
+                cols = set(mv.cols)
+                k = sub["k"]
+                if k == "sel":
+                    if not pred_cols(sub["p"]) <= cols:
+                        return None
+                    f = lambda v: M.m_sel(v, sub["p"])  # noqa: E731
+                elif k == "calc":
+                    if not expr_cols(sub["e"]) or not expr_cols(sub["e"]) <= cols or sub["tag"] in cols:
+                        return None
+                    f = lambda v: M.m_calc(v, sub["tag"], sub["e"])  # noqa: E731
+                elif k == "proj":
+                    if not set(sub["cols"]) <= cols:
+                        return None
+                    f = lambda v: M.m_proj(v, sub["cols"])  # noqa: E731
+                elif k == "sort":
+                    if any(not expr_cols(e) <= cols for e, _ in sub["terms"]):
+                        return None
+                    f = lambda v: M.m_sort(v, sub["terms"])  # noqa: E731
+                elif k == "slice":
+                    f = lambda v: M.m_slice(v, sub["start"], sub["stop"])  # noqa: E731
+                else:
+                    return None
+                if M.is_sql(mv.engine) and mv.pending_sort and k == "proj":
+                    return None         # (may legitimately be refused; covered elsewhere)
+                holder = _E()
+                holder.rel, holder.mv = rel, mv
+                try:
+                    rel = self.build_call(sub, [holder])()
+                except Exception:  # noqa  (rejections and their classes are judged by other ops)
+                    return None
+                mv = f(mv)
+            ent = Entry(rel, mv, op, [t])
+            ent.all_bag_det = t.all_bag_det and mv.bag_det
+            try:
+                if self.profile.prop == "C17" and M.is_sql(mv.engine):
+                    raw = self.build_raw(t, {})
+                    if raw is not None:
+                        for sub in subs:
+                            raw = self._raw_unary(sub, raw)
+                            if raw is None:
+                                break
+                    if raw is not None:
+                        ent = Entry(self.w.sql.conform(raw), mv, op, [t])
+                rows, _ = self.evaluate(ent)
+            except Exception as e:  # noqa
+                self.on_exec_exception(ent, e)
+                return None
+            self.check_rows(ent, rows)
+            return True
+
+        execu.MEMO_OFF[0] = True
+        try:
+            for subs in op["subs"]:
+                if one(subs):
+                    self.stats["ephemeral"] += 1
+                MON.reset()         # (reference counting frees the dropped tree at once; no cycles are involved)
+        finally:
+            execu.MEMO_OFF[0] = False
+
+    def _raw_unary(self, sub, tgt):
+        tags = self.w.tags
+        k = sub["k"]
+        if k == "calc":
+            o = Calculation(tags[sub["tag"]], build_expr(sub["e"], tags))
+        elif k == "proj":
+            o = Projection(frozenset(tags[c] for c in sub["cols"]))
+        elif k == "sel":
+            o = Selection(build_pred(sub["p"], tags))
+        elif k == "sort":
+            if not sub["terms"]:
+                return tgt
+            o = Sort(tuple(SortTerm(build_expr(e, tags), bool(a)) for e, a in sub["terms"]))
+        elif k == "slice":
+            if not sub["start"] and sub["stop"] is None:
+                return tgt
+            o = Slice(sub["start"], sub["stop"])
+        else:
+            return None
+        return UnaryOperationRelation(operation=o, target=tgt, columns=o.applied_columns(tgt))
 
     def op_twice(self, op):
         """Compile / execute the same relation twice: identical SQL text, identical rows."""
